@@ -266,7 +266,22 @@ def run(ctx):
 
     # ---------------------------------------------------------------- R6 prologue names (shared with C11.R5)
     C11.prologue_check(ctx, "C04.R6")
-    ctx.floor("C04.R6", 5)
+    # generated code evaluates repr(expression): the operator spellings (C11.R3) and the parse-faithfulness of the rendering (C11.R4)
+    # are what makes a context expression select the same branch, length or count there as in the interpreter
+    from ..core import Ctx
+    sub = Ctx("C11", ctx.tier, ctx.root, model=ctx.model)
+    sub._summ = summariser(ctx)
+    C11.run(sub)
+    for e in sub.errors:
+        ctx.error("shared C11 rules: " + e)
+    for o in sub.obligations:
+        if o.rule in ("C11.R3", "C11.R4"):
+            ctx.ob("C04.R6", o.where, o.ok, o.what, key=o.key, loc=o.loc, detail=o.detail)
+    ctx.floor("C04.R6", 5 + 20 + 6)
+
+    # ---------------------------------------------------------------- R8 the templates frozen out of R3 for their compile-time specialisation (Peek, Pointer, Union parse): position contracts shared with C09.R6
+    from . import C09_templates
+    C09_templates.run(ctx, "C04.R8")
 
     # ---------------------------------------------------------------- R7 parameter agreement emitter vs interpreter
     n7 = 0
